@@ -240,7 +240,7 @@ pub async fn replay() {
             // rate is kept well below (ephemeral ports / 60 s)
             let due = std::time::Duration::from_micros(next as u64 * 6000);
             if started.elapsed() < due {
-                tokio::time::sleep(due - started.elapsed()).await;
+                tokio::time::sleep(due.saturating_sub(started.elapsed())).await;
             }
             let hs = hists.clone();
             let hi = next;
